@@ -69,9 +69,10 @@ class Sym:
 
 class SInt(Sym):
     """Python int.  z: z3 Int term.  bv: optional (bvterm, width, signed) view with z == bv2int(bvterm)."""
-    __slots__ = ("z", "bv", "bitlen_of", "rng")
+    __slots__ = ("z", "bv", "bitlen_of", "rng", "lowzeros")
 
-    def __init__(self, z, bv=None, bitlen_of=None, rng=None):
+    def __init__(self, z, bv=None, bitlen_of=None, rng=None, lowzeros=0):
+        self.lowzeros = lowzeros  # number of low bits known to be zero (value was shifted left by this much)
         self.z = z
         self.bv = bv
         self.bitlen_of = bitlen_of  # z3 Int term x: this value is x.bit_length()
@@ -235,6 +236,7 @@ class Engine:
         self.globals_overlay = {}
         self.text_facts = {}
         self.notes = []
+        self.bv_alias = {}
 
     # ---------- solver plumbing
     def assume(self, c):
